@@ -18,6 +18,7 @@ import (
 	"runtime/debug"
 	"strings"
 	"sync"
+	"time"
 
 	"github.com/foxboron/go-uefi/authenticode"
 	"github.com/foxboron/go-uefi/efi/device"
@@ -600,6 +601,10 @@ func manyInputs(id any, entry string, n, par int) {
 	if par > 1 {
 		tag = "#concurrent"
 	}
+	// a series is one guarded call that legitimately runs for seconds: its own watchdog
+	oldWd := watchdog
+	watchdog = 10 * time.Minute
+	defer func() { watchdog = oldWd }()
 	// the library's diagnostics (one line per unknown node type ...) are not collected for a series this long
 	log.SetOutput(io.Discard)
 	defer log.SetOutput(os.Stderr)
